@@ -92,7 +92,9 @@ def forward(ctx, cfg):
 
 # ---------------------------------------------------------------------------------------- syndrome
 def _syn_cfgs(tier):
-    return codes.catalogue(tier)
+    # RM's calculate_syndrome runs its 2^k-way nearest-codeword search: symbolic only up to k = 6 (larger RM codes are
+    # covered by C01.invariant / C01.forward and by the bounded C02/C10 stand-ins)
+    return [c for c in codes.catalogue(tier) if not codes.rm_search_heavy(c)]
 
 
 def _syn_eq_cfgs(tier):
